@@ -55,7 +55,7 @@ class Engine:
             pass           # (a tree on which even '' blows up: the obligation bodies report it)
 
     def parse(self, text, **more):
-        """-> ('ok', ast, endpos) | ('fail', pos) ; other exceptions propagate"""
+        """-> ('ok', ast, endpos) | ('fail', pos, error class name) ; other exceptions propagate"""
         from tatsu.exceptions import FailedParse
         settings = {**self.settings, **more}
         try:
@@ -71,7 +71,7 @@ class Engine:
                 return ('ok', ast, pos)
             return ('ok', self.model.parse(text, **settings), None)
         except FailedParse as e:
-            return ('fail', e.pos)
+            return ('fail', e.pos, type(e).__name__)
 
 
 class GenParser:
@@ -184,12 +184,24 @@ def make_peg(spec):
                 return False, 'cut-changes-outcome', [other[0]]
             if not (norm(other[1]) == ast) or other[2] != real[2]:
                 return False, 'cut-changes-result', [skel(ast), skel(norm(other[1]))]
+        known_hit = None
         for i, v in enumerate(variants):
             other = guarded(eng.parse, t, **v)
             if other[0] != real[0]:
                 return False, f'variant{i}-outcome', [real[0], other[0], other[1] if other[0] == 'exception' else None]
+            if real[0] == 'fail' and spec.get('variant_errors'):
+                # the failure position and the class of the error are part of the outcome
+                if other[1] != real[1]:
+                    return False, f'variant{i}-failure-position', [real[1], other[1]]
+                if len(other) > 2 and len(real) > 2 and other[2] != real[2]:
+                    if spec['variant_errors'] == 'F40-tolerated':
+                        known_hit = 'F40'
+                    else:
+                        return False, f'variant{i}-error-class', [real[2], other[2], real[1]]
             if real[0] == 'ok' and (not (norm(other[1]) == ast) or other[2] != real[2]):
                 return False, f'variant{i}-ast', [skel(ast), skel(norm(other[1]))]
+        if known_hit:
+            return True, 'known:' + known_hit, [real[1]]
         if real[0] == 'fail':
             return True, ('fail' if real[1] > 0 else 'triv:fail0'), [real[1]]
         return True, 'ok', [real[2], skel(ast)]
